@@ -571,14 +571,16 @@ impl Duration {
     /// assert_eq!(two_hours_three_min.ceil(1.hours() + 5.minutes()), 2.hours() + 10.minutes());
     /// ```
     pub fn ceil(&self, duration: Self) -> Self {
-        let floored = self.floor(duration);
-        match floored
-            .total_nanoseconds()
-            .checked_add(duration.abs().total_nanoseconds())
-        {
-            Some(total_ns) => Self::from_total_nanoseconds(total_ns),
-            None => Self::MAX,
+        // Start from the exact floor, not from `self.floor(duration)`: that one saturates at Duration::MIN, and
+        // adding the step to the saturated value is not a multiple of the step.
+        let step_ns = duration.total_nanoseconds();
+        if step_ns == 0 {
+            return Self::ZERO;
         }
+        let total_ns = self.total_nanoseconds();
+        Self::from_total_nanoseconds(
+            total_ns - total_ns.rem_euclid(step_ns) + duration.abs().total_nanoseconds(),
+        )
     }
 
     /// Rounds this duration to the closest provided duration
